@@ -193,6 +193,33 @@ def run(ctx) -> None:
     observed_ok = _finish_veto_holds(ctl)
     _check_state_list(ctx, sched, PFAILED, "FAILED_STATE", "C01.R3-failed-shutdown-producers", DEPS, observed_ok)
     _check_state_list(ctx, sched, PSHUT, "SHUTDOWN_STATE", "C01.R3-failed-shutdown-producers", DEPS, observed_ok)
+    # .. and they range over EVERY input of the component: the names handed to _true_nodes_from_identifiers are the graph's predecessors of the
+    # component, unfiltered, on every reaching definition.  A veto that leaves some inputs out (say the same-stage inputs of a repeating
+    # component, 'whose subjects may still be running') launches a consumer of an input that already FAILED or was SHUT DOWN
+    from vlib import flow as _flow
+    tn_calls = [(n, c) for n in cfg.nodes if n.ast is not None and n.kind in ("stmt", "test") for c in own_calls(n.ast)
+                if last_attr(c) == "_true_nodes_from_identifiers" and c.args]
+
+    def all_predecessors(e: ast.AST, at: int, depth: int = 0) -> bool:
+        if depth > 5:
+            return False
+        while isinstance(e, ast.Call) and isinstance(e.func, ast.Name) and e.func.id in ("list", "sorted", "tuple", "set") and e.args:
+            e = e.args[0]
+        if isinstance(e, ast.Call) and last_attr(e) == "predecessors":
+            return True
+        if isinstance(e, ast.Name):
+            rd = _flow.reaching_defs(cfg, e.id).get(at, frozenset())
+            vals = [(d, _flow.def_value(cfg, d, e.id)) for d in rd]
+            return bool(vals) and all(v is not None and all_predecessors(v, d, depth + 1) for d, v in vals)
+        return False
+    for (n, c) in tn_calls:
+        ok = all_predecessors(c.args[0], n.id)
+        ctx.ob("C01.R3-failed-shutdown-producers", c, ok,
+               "the launch veto looks at every predecessor of the component in the graph" if ok else
+               "the names whose states decide the launch veto (%s) are not, on every path, all the predecessors of the component in the graph: an input "
+               "that is left out - e.g. the same-stage inputs of a repeating component - can be FAILED or SHUT DOWN without stopping the launch; a "
+               "repeating, non-aggregating consumer that is held back by a second input is launched after its first input was shut down"
+               % short(c.args[0], 40), construct="_schedule: the veto ranges over graph.predecessors(<component>)")
     for rn in ready_nodes:
         ok = match.only_via_edges(cfg, rn, [(n, "F") for n, _ in failed_tests])
         ctx.ob("C01.R3-failed-shutdown-producers", rn.ast, ok,
